@@ -367,7 +367,7 @@ def check_C13(tier, seed):
         modules = (1, 2, 9)
     consts = ("Mod <- TheMod", "ByteExact = FALSE")
     for mi in modules:
-        mod, scns, st = gen_codec(mi, "enc", 2, exact=False, valcap=6 if tier == "quick" else 0, leafcap=8 if tier == "quick" else 0)
+        mod, scns, st = gen_codec(mi, "enc", 2, exact=False, valcap=6 if tier == "quick" and mi != 9 else 0, leafcap=8 if tier == "quick" else 0)
         res.states += st["distinct"]
         res.transitions += st["states"]
         M = Module(mod)
